@@ -221,6 +221,59 @@ static void scripted() {
     }
 }
 
+// One request of more than 4 GiB (virtual memory only: first and last page are touched).  Addresses and sizes do not
+// fit TLC's 32-bit integers, so the events carry sizes split into 2^20 units and offsets relative to the system block.
+template<class T, std::size_t A>
+static void big_request() {
+    set_label("alloc", "allocate_big");
+    const std::size_t n = ((std::size_t(1) << 32) + 5000) / sizeof(T) + 3;
+    const std::size_t bytes = n * sizeof(T);
+    avel::Aligned_allocator<T, A> al;
+    T* p = nullptr;
+    g_nsys = 0;
+    int sg = guarded([&] {
+        g_api = 1;
+        p = al.allocate(n);
+        g_api = 0;
+    });
+    g_api = 0;
+    std::uintptr_t sysp = 0;
+    std::size_t syssize = 0;
+    int nalloc = 0, nfree = 0;
+    for (int i = 0; i < g_nsys; ++i) {
+        if (g_sysev[i].kind == 0 && g_sysev[i].p) { sysp = g_sysev[i].p; syssize = g_sysev[i].size; ++nalloc; }
+        if (g_sysev[i].kind == 1) ++nfree;
+    }
+    g_nsys = 0;
+    if (sg == 0 && !p) {       // the system refused the request: nothing to check (not a property of AVEL)
+        std::fprintf(g_tr, "{\"e\":\"big_refused\"}\n");
+        return;
+    }
+    const std::uintptr_t up = reinterpret_cast<std::uintptr_t>(p);
+    std::fprintf(g_tr, "{\"e\":\"allocate_big\",\"nsys\":%d,\"nfree\":%d,\"off\":%ld,\"pmod\":%lu,\"A\":%lu,\"bytes_hi\":%lu,\"bytes_lo\":%lu,\"size_hi\":%lu,\"size_lo\":%lu,\"sig\":\"%s\"}\n",
+                 nalloc, nfree, (sg || up < sysp || up - sysp > (1ul << 30)) ? -1l : long(up - sysp), (unsigned long) (up % A), (unsigned long) A,
+                 (unsigned long) (bytes >> 20), (unsigned long) (bytes & 0xFFFFF), (unsigned long) (syssize >> 20), (unsigned long) (syssize & 0xFFFFF), signame(sg));
+    if (sg) return;
+    unsigned char* c = reinterpret_cast<unsigned char*>(p);
+    bool okfill = true;
+    if (syssize >= bytes) {     // only write where the system block really extends
+        c[0] = 0x5A; c[4095] = 0x5B; c[bytes - 1] = 0x5C; c[bytes - 4096] = 0x5D;
+        okfill = c[0] == 0x5A && c[4095] == 0x5B && c[bytes - 1] == 0x5C && c[bytes - 4096] == 0x5D;
+    }
+    g_nsys = 0;
+    sg = guarded([&] {
+        g_api = 1;
+        al.deallocate(p, n);
+        g_api = 0;
+    });
+    g_api = 0;
+    int frees = 0, freed_base = 0;
+    for (int i = 0; i < g_nsys; ++i)
+        if (g_sysev[i].kind == 1) { ++frees; if (g_sysev[i].p == sysp) freed_base = 1; }
+    g_nsys = 0;
+    std::fprintf(g_tr, "{\"e\":\"deallocate_big\",\"frees\":%d,\"freed_base\":%d,\"fill_ok\":%d,\"sig\":\"%s\"}\n", frees, freed_base, int(okfill), signame(sg));
+}
+
 struct S3 { char b[3]; };
 struct S16 { double a, b; };
 struct S24 { char b[24]; };
@@ -256,7 +309,7 @@ int main(int argc, char** argv) {
     install_handlers();
     Rng r(seed * 7919 + 13);
     const unsigned steps = g_tier ? 4000 : 300;
-#define VH_ALLOC_INST(T_, A_) if (gen) scripted<T_, A_>(); else history<T_, A_>(r, steps);
+#define VH_ALLOC_INST(T_, A_) if (gen) scripted<T_, A_>(); else { history<T_, A_>(r, steps); if (sizeof(T_) * A_ % 3 != 1) big_request<T_, A_>(); }
     VH_ALLOC_INST(char, 1)
     VH_ALLOC_INST(char, 16)
     VH_ALLOC_INST(char, 32)
